@@ -1,5 +1,5 @@
 use crate::Result;
-use bytes::{Bytes, BytesMut};
+use bytes::{Buf, Bytes, BytesMut};
 use internal::Finish;
 use sip_types::msg::{Line, MessageLine, PullParser};
 use sip_types::parse::{ParseCtx, Parser};
@@ -40,7 +40,10 @@ pub struct DecodedMessage {
 }
 
 pub struct StreamingDecoder {
+    /// Offset of the first header line that has not been completely received yet
     head_progress: usize,
+    /// Content-Length found in the header lines before `head_progress`
+    content_len: usize,
     parser: Parser,
 }
 
@@ -48,9 +51,24 @@ impl StreamingDecoder {
     pub fn new(parser: Parser) -> Self {
         Self {
             head_progress: 0,
+            content_len: 0,
             parser,
         }
     }
+}
+
+/// Maximum size of a message head
+const MAX_HEAD_LEN: usize = 4096;
+
+/// Is `name` (the part of a header line in front of the colon) the Content-Length header name
+fn is_content_length(name: &[u8]) -> bool {
+    let len = name
+        .iter()
+        .rposition(|c| !matches!(c, b' ' | b'\t'))
+        .map_or(0, |pos| pos + 1);
+    let name = &name[..len];
+
+    name.eq_ignore_ascii_case(b"content-length") || name.eq_ignore_ascii_case(b"l")
 }
 
 impl Decoder for StreamingDecoder {
@@ -58,21 +76,22 @@ impl Decoder for StreamingDecoder {
     type Error = Error;
 
     fn decode(&mut self, src: &mut BytesMut) -> Result<Option<Self::Item>, Self::Error> {
-        if &src[..] == b"\r\n" {
-            src.clear();
-            return Ok(None);
-        }
+        if self.head_progress == 0 {
+            // Any CRLF in front of the start-line must be ignored (RFC 3261 7.5),
+            // this is also how keep-alives are sent (RFC 5626 3.5.1)
+            let skip = src
+                .iter()
+                .take_while(|&&c| c == b'\r' || c == b'\n')
+                .count();
 
-        if src.len() > 4096 {
-            // do not allow a message head larger than that
-            src.clear();
+            src.advance(skip);
 
-            return Err(Error::MessageTooLarge);
+            if src.is_empty() {
+                return Ok(None);
+            }
         }
 
         let mut parser = PullParser::new(src, self.head_progress);
-
-        let mut content_len = 0;
 
         for line in &mut parser {
             if let Ok(line) = line {
@@ -81,16 +100,16 @@ impl Decoder for StreamingDecoder {
                 let mut split = line.splitn(2, |&c| c == b':');
 
                 if let Some(name) = split.next() {
-                    if name.eq_ignore_ascii_case(b"content-length") || name.starts_with(b"l") {
+                    if is_content_length(name) {
                         let value = split.next().ok_or(Error::Malformed)?;
                         let value = from_utf8(value)?;
 
-                        content_len = value
+                        self.content_len = value
                             .trim()
                             .parse::<usize>()
                             .map_err(|_| Error::Malformed)?;
 
-                        if content_len > (u16::MAX as usize) {
+                        if self.content_len > (u16::MAX as usize) {
                             return Err(Error::MessageTooLarge);
                         }
                     }
@@ -98,12 +117,24 @@ impl Decoder for StreamingDecoder {
             } else {
                 // cannot parse complete message head yet
                 self.head_progress = parser.progress();
+
+                if src.len() > MAX_HEAD_LEN {
+                    // do not allow a message head larger than that
+                    return Err(Error::MessageTooLarge);
+                }
+
                 return Ok(None);
             }
         }
 
         // parser completed without errors
         // message head should be complete
+
+        if parser.head_end() > MAX_HEAD_LEN {
+            return Err(Error::MessageTooLarge);
+        }
+
+        let content_len = self.content_len;
 
         // Calculate the complete message size
         let expected_complete_message_size = parser.head_end() + content_len;
@@ -127,6 +158,7 @@ impl Decoder for StreamingDecoder {
 
         // reset state
         self.head_progress = 0;
+        self.content_len = 0;
 
         // reset parser
         parser = PullParser::new(&src_bytes, 0);
@@ -136,7 +168,7 @@ impl Decoder for StreamingDecoder {
         let mut headers = Headers::new();
 
         for item in &mut parser {
-            let item = item.expect("got error when input was already checked");
+            let item = item.map_err(|_| Error::Malformed)?;
 
             let line = from_utf8(item)?;
 
